@@ -48,6 +48,16 @@ CLAIMED = {
     note=("Trusted: lianvc + encoding, z3. Assumed (hereditary, unchecked): frontend output shape (non-empty statement dicts, first key = operation, payload keys not "
           "reserved). LangAnalysis.run is not under contract."),
     design='§4 C03'),
+ 'C05': dict(
+    text=("Proof (partial: the selection step and the scope corrections): on the real code, for all unit summaries and scope tables: Resolver.resolve_symbol_source_decl hands "
+          "organize_return_value a scope that declares the name, is visible from the statement (available set of its scope, or an implicit root) and has the maximum id among all "
+          "such scopes; with source_symbol_must_be_global only scope 0 when it declares the name; an empty name, a statement without scope and a name without visible declaring "
+          "scope yield the unresolved default record. UnitScopeHierarchyAnalysis.correct_scopes re-homes a declaration into scope S only if it was read from the block S designates "
+          "for that kind (class fields/methods/nested classes, method parameters, for/with initialisers) and a method only if it is a DIRECT child of the class's methods block. "
+          "Lemma: on an ancestor chain with parent id < child id the maximum id is the innermost scope. Recorded finding F5: the chosen scope need not enclose the statement "
+          "(implicit-root union). Not decided: scope discovery per language, summarize_symbol_decls, imports, the renaming sentence."),
+    note=("Trusted: lianvc + encoding, z3; loader / GIR viewer / scope-space lookups as uninterpreted functions; organize_return_value and resolve_implicit_root_scopes opaque."),
+    design='§4 C05'),
  'C06': dict(
     text=("Proof (partial: the dataflow equations, not the fixpoint): on the real code, for all frames, definition tables, CFG neighbourhoods and rounds: BitVectorManager."
           "{kill_bit_ids, gen_bit_ids} are set difference / union on the same set object, add_bit_id keeps the two position tables inverse; update_current_symbol_bit yields "
